@@ -15,6 +15,7 @@ LEVEL = "model_checking"
 
 RL2 = '{{}, {"r1"}}'
 RL3 = '{{}, {"r1"}, {"r1", "r2"}}'
+RL4 = '{{}, {"r1"}, {"r2"}, {"r1", "r2"}}'
 
 
 def conf(n, depth, subs, d, rl=RL3, sample=0, odd=True):
@@ -55,13 +56,15 @@ def run(ctx):
                 ("two-directives", conf(2, 1, 1, 2, RL2, odd=False), None),
                 ("deep-flat", conf(3, 0, 1, 3, RL2, odd=False), None),
                 ("two-subs-flat", conf(2, 0, 2, 2, RL2, odd=False), None),
-                ("sample", conf(3, 2, 2, 3, RL3, 55), None)]
+                ("rule-lists", conf(2, 0, 1, 2, RL4, odd=False), None),
+                ("sample", conf(3, 2, 2, 3, RL4, 55), None)]
     else:
         runs = [("one-directive", conf(3, 2, 2, 1), "coverage"),
                 ("two-directives-2subs", conf(2, 1, 2, 2, RL2, odd=False), None),
                 ("two-directives-nested", conf(3, 2, 1, 2, RL2, odd=False), None),
                 ("deep-flat", conf(4, 0, 1, 3, RL2, odd=False), None),
-                ("sample", conf(4, 2, 2, 4, RL3, 120), None)]
+                ("rule-lists", conf(2, 1, 1, 2, RL4, odd=False), None),
+                ("sample", conf(4, 2, 2, 4, RL4, 120), None)]
     beh_files = []
     for tag, defs, cov in runs:
         m = ctx.tlc("Ignore", defines=defs, timeout=3000, tag=tag, coverage=bool(cov))
